@@ -26,6 +26,7 @@ import (
 	"math"
 	"math/rand"
 	"os"
+	"regexp"
 	"os/exec"
 	"path/filepath"
 	"sort"
@@ -368,6 +369,42 @@ func childConsts(b run.Batch, r *ev.Result) {
 		if len(z.BracketBad) > 0 {
 			r.Violationf("production-current-timeslot-off-clock:host-timezone", map[string]interface{}{"TZ": "(unset)", "zone": z.ZoneName, "brackets": z.BracketBad},
 				"with TZ unset (zone %s) production CurrentTimeslot() is outside the bracket: %v", z.ZoneName, z.BracketBad)
+		}
+	}
+	// The protocol clock is fixed by the protocol, not by the deployment: no
+	// variable of the process environment may move genesis or the current
+	// timeslot. Candidate names are read off the production binary itself
+	// (upper-case identifiers with underscores that mention the project, the
+	// genesis, the clock …) and all set to staging-like values at once.
+	if p, err := ensureProd(); err == nil {
+		if bin, err := os.ReadFile(p); err == nil {
+			seen := map[string]bool{}
+			var env, names []string
+			keys := []string{"GLOW", "GCA", "GENESIS", "TIMESLOT", "CLOCK", "EPOCH", "MAINNET", "TESTNET", "STAGING"}
+			for _, m := range regexp.MustCompile(`[A-Z][A-Z0-9]*(?:_[A-Z0-9]+)+`).FindAll(bin, -1) {
+				t := string(m)
+				for _, k := range keys {
+					if i := strings.Index(t, k); i >= 0 && len(t)-i >= 6 && len(t)-i <= 48 {
+						for _, cand := range []string{t, t[i:]} {
+							if !seen[cand] && len(names) < 400 {
+								seen[cand] = true
+								names = append(names, cand)
+								env = append(env, cand+"="+fmt.Sprint(docGenesis+4648000+int64(len(names))))
+							}
+						}
+					}
+				}
+			}
+			r.Count("prod.environment_names_found_in_binary", int64(len(names)))
+			var z constsOut
+			if len(env) > 0 && runProdEnv(r, env, &z, "consts", "300") {
+				r.Eval(z.Brackets + 1)
+				r.Count("prod.runs_with_hostile_environment", 1)
+				if z.GenesisTime != docGenesis || len(z.BracketBad) > 0 {
+					r.Violationf("production-clock-moved-by-environment", map[string]interface{}{"environment": env, "genesis_time": z.GenesisTime, "brackets": z.BracketBad},
+						"with %d environment variables named in the production binary set to staging-like values the production GenesisTime is %d (documented: %d) and CurrentTimeslot() left its bracket %d times", len(env), z.GenesisTime, docGenesis, len(z.BracketBad))
+				}
+			}
 		}
 	}
 	r.SetExtra("prod.timezones_probed", zoneLog)
